@@ -2,10 +2,10 @@ ID = "C04"
 LEVEL = "model_checking"
 MIRSYM = "C04"
 BOUNDS = ("every path of the notification builders; SubscriptionSink::{send,send_timeout,try_send} for closed / open from every resume point; accept() for every outcome of the queue hand-over; "
-          "the closing task for try_join Ok / Err / pending x closing value kinds; the acceptance signal for every answer kind; SubscriptionSink::is_closed for connection closed x unsubscribed")
+          "the closing task for try_join Ok / Err / pending x closing value kinds; the acceptance signal for every answer kind; SubscriptionSink::is_closed for connection closed x unsubscribed; into_rpc of the fixture traits with subscriptions (every path)")
 EXPLANATION = ("Reduced claim. Symbolic execution of the MIR of the notification builders, the three send flavours, accept(), the per-subscription closing task and the acceptance signal: "
                "z3 decides that whatever is queued for a subscription is built from that subscription's own id and method name, that nothing is queued once the sink reports closed, that a sink "
-               "only exists after the accepting response was queued, and that a closing notification is sent at most once and only for an accepted subscription whose handler finished. The sink reports closed exactly when its connection is gone or it was unsubscribed.")
+               "only exists after the accepting response was queued, and that a closing notification is sent at most once and only for an accepted subscription whose handler finished. The sink reports closed exactly when its connection is gone or it was unsubscribed. A macro-generated server registers each subscription with its declared notification name (default: the subscribe name) - the registration obligation shared with C17.")
 TRUSTED = ["rustc MIR dump", "z3 / cvc5", "tokio mpsc is FIFO and the connection has a single writer task (C01 decides the writer loop's per-message handling)", "serde serialisation of the notification object"]
 OUTSIDE = ["every interleaving of handler sends, unsubscribe calls, disconnects and server stop (task schedules): e.g. a send racing with an unsubscribe", "messages pre-built by the handler (SubscriptionMessage::new with its own id / method)",
            "the writer task draining the queue in order (tokio + soketto)"]
